@@ -62,7 +62,10 @@ Record pparams : Type := mkPP {
   pp_levels : Z;                   (* NumLevels *)
   pp_cbw : Z; pp_cbh : Z;          (* CodeBlockWidth, CodeBlockHeight *)
   pp_mct : bool;                   (* EnableMCT *)
-  pp_order : Z                     (* ProgressionOrder 0..4 *)
+  pp_order : Z;                    (* ProgressionOrder 0..4 *)
+  (* the tile this parameter set describes: pp_w x pp_h samples at origin (pp_x0, pp_y0) of the
+     reference grid of an image pp_iw wide (single tile: origin (0, 0), pp_iw = pp_w) *)
+  pp_x0 : Z; pp_y0 : Z; pp_iw : Z
 }.
 
 Definition i32 (x : Z) : Z := wrapS 32 x.
@@ -79,6 +82,13 @@ Definition uses_rct (p : pparams) : bool := pp_mct p && (pp_nc p =? 3).
    SetComponentSampling(c, 1, 1), precinct 2^15 *)
 Definition pipe_pgeom (p : pparams) : K.pgeom :=
   {| K.pg_bounds := fun _ => (0, 0, pp_w p, pp_h p);
+     K.pg_sampling := fun _ => (1, 1);
+     K.pg_precinct := fun _ => (prec_sz, prec_sz) |}.
+
+(* TileDecoder.Decode: SetComponentBounds(i, comp.x0, comp.y0, comp.x0 + width, comp.y0 + height) with
+   the tile-component origin; the ENCODER always passes the tile-local bounds (0, 0, w, h) *)
+Definition pipe_pgeom_dec (p : pparams) : K.pgeom :=
+  {| K.pg_bounds := fun _ => (pp_x0 p, pp_y0 p, pp_x0 p + pp_w p, pp_y0 p + pp_h p);
      K.pg_sampling := fun _ => (1, 1);
      K.pg_precinct := fun _ => (prec_sz, prec_sz) |}.
 
@@ -109,12 +119,12 @@ Definition pipe_front (p : pparams) (pix : list Z) : outcome (list (list Z)) :=
 (* applyWaveletTransform on one component of the (single) tile, origin (0, 0) *)
 Definition pipe_fdwt (p : pparams) (comp : list Z) : list Z :=
   if pp_levels p =? 0 then comp
-  else DwtModel.fwd53_ml comp (Z.to_nat (pp_w p)) (Z.to_nat (pp_h p)) (Z.to_nat (pp_levels p)) 0 0.
+  else DwtModel.fwd53_ml comp (Z.to_nat (pp_w p)) (Z.to_nat (pp_h p)) (Z.to_nat (pp_levels p)) (pp_x0 p) (pp_y0 p).
 
 (* applyIDWT *)
 Definition pipe_idwt (p : pparams) (coeffs : list Z) : list Z :=
   if pp_levels p =? 0 then coeffs
-  else DwtModel.inv53_ml coeffs (Z.to_nat (pp_w p)) (Z.to_nat (pp_h p)) (Z.to_nat (pp_levels p)) 0 0.
+  else DwtModel.inv53_ml coeffs (Z.to_nat (pp_w p)) (Z.to_nat (pp_h p)) (Z.to_nat (pp_levels p)) (pp_x0 p) (pp_y0 p).
 
 (* ------------------------------------------------------------------------------------ *)
 (* encoder: code-blocks                                                                   *)
@@ -123,7 +133,7 @@ Definition pipe_idwt (p : pparams) (coeffs : list Z) : list Z :=
    block with its resolution (GeoModel.enc_all_blocks forgets the resolution) *)
 Definition enc_blocks_res (p : pparams) (data : list Z) (res : Z) : list G.cblock :=
   flat_map (fun sb => G.enc_partition sb (pp_cbw p) (pp_cbh p))
-           (G.enc_subbands data (pp_w p) (pp_h p) 0 0 (pp_levels p) res).
+           (G.enc_subbands data (pp_w p) (pp_h p) (pp_x0 p) (pp_y0 p) (pp_levels p) res).
 
 Definition enc_blocks (p : pparams) (data : list Z) : list (Z * G.cblock) :=
   flat_map (fun res => map (fun c => (res, c)) (enc_blocks_res p data res)) (G.zrange (pp_levels p + 1)).
@@ -180,7 +190,7 @@ Definition enc_code_block (p : pparams) (res : Z) (cb : G.cblock) (cbx cby : Z) 
 Definition ceil_div_pow2 (n pow : Z) : Z := if pow <=? 0 then n else Z.quot (n + 2 ^ pow - 1) (2 ^ pow).
 Definition enc_res_width (p : pparams) (res : Z) : Z :=
   let d := if pp_levels p - res <? 0 then 0 else pp_levels p - res in
-  let w := ceil_div_pow2 (pp_w p) d in if w <? 1 then 1 else w.
+  let w := ceil_div_pow2 (pp_iw p) d in if w <? 1 then 1 else w.
 Definition enc_precinct_index (p : pparams) (x0 y0 res : Z) : Z :=
   let px := Z.quot x0 prec_sz in
   let py := Z.quot y0 prec_sz in
@@ -281,7 +291,7 @@ Definition band_entries (p : pparams) (resX0 resY0 startX startY npx : Z) (b : G
     (G.zrange numCBY).
 
 Definition res_entries (p : pparams) (res : Z) : list (Z * Z * Z * Z) :=
-  let '((resW, resH, resX0, resY0), bands) := G.dec_band_infos (pp_w p) (pp_h p) 0 0 (pp_levels p) res in
+  let '((resW, resH, resX0, resY0), bands) := G.dec_band_infos (pp_w p) (pp_h p) (pp_x0 p) (pp_y0 p) (pp_levels p) res in
   if (resW <=? 0) || (resH <=? 0) then [] else
   let startX := K.floor_div resX0 prec_sz * prec_sz in
   let startY := K.floor_div resY0 prec_sz * prec_sz in
@@ -362,7 +372,7 @@ Definition dec_cells_res (p : pparams) : list (Z * (Z * Z * Z * Z * Z)) :=
   flat_map (fun res =>
     map (fun c => (res, c))
         (flat_map (fun b => G.dec_band_cells b (pp_cbw p) (pp_cbh p))
-                  (snd (G.dec_band_infos (pp_w p) (pp_h p) 0 0 (pp_levels p) res))))
+                  (snd (G.dec_band_infos (pp_w p) (pp_h p) (pp_x0 p) (pp_y0 p) (pp_levels p) res))))
     (G.zrange (pp_levels p + 1)).
 
 (* estimateMaxBitplane *)
@@ -444,7 +454,7 @@ Fixpoint dec_components (p : pparams) (dps : list K.dpacket) (comps : list Z) : 
 
 (* TileDecoder.Decode *)
 Definition pipe_dec_planes (p : pparams) (tile : list Z) : outcome (list (list Z)) :=
-  obind (K.dec_packets tile (pp_order p) 1 (pp_levels p + 1) (pp_nc p) (pipe_pgeom p) (dec_pidx p) (dec_geo p)
+  obind (K.dec_packets tile (pp_order p) 1 (pp_levels p + 1) (pp_nc p) (pipe_pgeom_dec p) (dec_pidx p) (dec_geo p)
                        0 false false) (fun dps =>
     dec_components p dps (G.zrange (pp_nc p))).
 
@@ -501,3 +511,272 @@ Definition pipe_codestream (p : pparams) (tile : list Z) : list Z :=
 (* ===== Encoder.Encode: pixel bytes -> codestream ===== *)
 Definition pipe_encode (p : pparams) (pix : list Z) : outcome (list Z) :=
   obind (pipe_encode_tile p pix) (fun tile => Ok (pipe_codestream p tile)).
+
+(* ==================================================================================== *)
+(* QUALITY LAYERS (NumLayers = nl >= 2, Lossless, TargetRatio = 0, no LayerRates)         *)
+(* The layered path of encodeCodeBlock (encodeLayeredCodeBlock: t1.EncodeLayered), the layer
+   finalisation (applyRateDistortion -> finalizeBlock, appendLossless = Lossless && nl > 1:
+   J2KGeo.GeoLayers.finalize_block) and EncodePackets / DecodePackets / gatherCBData over nl
+   layers.  The per-block pass allocation (LayerAllocation.GetPassesForLayer, computed by the
+   rate-distortion code) is a PARAMETER: alloc comp idx = the row of cumulative pass counts of
+   block idx (position in the component's block list).                                       *)
+
+Module GL := V.J2KGeo.GeoLayers.
+
+Fixpoint zip_passes (lens : list Z) (ps : list T1Bytes.passrec) : list (Z * Z * bool) :=
+  match lens, ps with
+  | l :: lr, q :: pr => (l, T1Bytes.p_actual q, T1Bytes.p_term q) :: zip_passes lr pr
+  | _, _ => []
+  end.
+
+Definition enc_code_block_layers (p : pparams) (nl : Z) (row : list Z) (res : Z) (cb : G.cblock) (cbx cby : Z)
+  : outcome H.eblock :=
+  let data := map (fun v => i32 (Z.shiftl v 6)) (G.cb_data cb) in
+  let cblk := cblk_numbps data in
+  let bandn0 := enc_band_numbps p res (G.cb_band cb) in
+  let bandn := if bandn0 <=? 0 then cblk else bandn0 in
+  let np := if cblk >? 0 then cblk * 3 - 2 else 1 in
+  let zbp := if bandn - cblk <? 0 then 0 else bandn - cblk in
+  let blk (lp : list Z) (ld : option (list (list Z))) (bytes : list Z) (npt : Z) (pl : list Z)
+          (passes : list (Z * Z * bool)) : H.eblock :=
+    {| H.eb_cbx := cbx; H.eb_cby := cby; H.eb_zbp := zbp; H.eb_lp := lp; H.eb_ld := ld;
+       H.eb_data := bytes; H.eb_npt := npt; H.eb_pl := pl; H.eb_passes := passes; H.eb_termall := false;
+       H.eb_included := false; H.eb_nlb := 0 |} in
+  match T1Bytes.enc_layered (Z.to_nat (G.cb_w cb)) (Z.to_nat (G.cb_h cb)) (G.cb_band cb) 0 6 np data with
+  | Ok (_, ps, bytes) =>
+    match ps with
+    | [] => Ok (blk [] None [] 0 [] [])                  (* NumPassesTotal = 0, Data = nil *)
+    | _ =>
+      let pl := map T1Bytes.p_rate ps in
+      let passes := zip_passes (T1Bytes.pass_lens 0 ps) ps in
+      match GL.finalize_block (map (fun q => (T1Bytes.p_rate q, T1Bytes.p_actual q)) ps) (Some bytes) nl row true with
+      | Ok (Some (lp, ld)) => Ok (blk lp (Some ld) bytes np pl passes)
+      | Ok None => Ok (blk [] None bytes np pl passes)
+      | Err => Err
+      | Panic => Panic
+      | OutOfFuel => OutOfFuel
+      end
+    end
+  | Err => Ok (blk [1] (Some [[0]]) [0] np [] [])       (* the error fallback of encodeLayeredCodeBlock *)
+  | Panic => Panic
+  | OutOfFuel => OutOfFuel
+  end.
+
+(* the key of a block inside its component: (resolution, band, cbx, cby) *)
+Definition bkey : Type := (Z * Z * Z * Z)%type.
+Definition bkey_eqb (a b : bkey) : bool :=
+  let '(a1, a2, a3, a4) := a in let '(b1, b2, b3, b4) := b in
+  (a1 =? b1) && (a2 =? b2) && (a3 =? b3) && (a4 =? b4).
+
+Definition enc_one_block_layers (p : pparams) (nl : Z) (rows : bkey -> list Z) (rc : Z * G.cblock)
+  : outcome (Z * Z * Z * H.eblock) :=
+  let '(res, cb) := rc in
+  let rx := G.cb_cbx cb * pp_cbw p in
+  let ry := G.cb_cby cb * pp_cbh p in
+  let pidx := enc_precinct_index p rx ry res in
+  let lx := rx - Z.quot rx prec_sz * prec_sz in
+  let ly := ry - Z.quot ry prec_sz * prec_sz in
+  obind (enc_code_block_layers p nl (rows (res, G.cb_band cb, G.cb_cbx cb, G.cb_cby cb)) res cb
+           (Z.quot lx (pp_cbw p)) (Z.quot ly (pp_cbh p))) (fun b =>
+    Ok (res, pidx, G.cb_band cb, b)).
+
+(* alloc comp key = the row of cumulative pass counts of that block *)
+Fixpoint enc_add_comps_layers (p : pparams) (nl : Z) (alloc : Z -> bkey -> list Z) (comp : Z) (cells : K.ecells)
+  (coeffs : list (list Z)) : outcome K.ecells :=
+  match coeffs with
+  | [] => Ok cells
+  | d :: r => obind (omap (enc_one_block_layers p nl (alloc comp)) (enc_blocks p d)) (fun bl =>
+              enc_add_comps_layers p nl alloc (comp + 1) (add_blocks comp cells bl) r)
+  end.
+
+Definition pipe_cells_layers (p : pparams) (nl : Z) (alloc : Z -> bkey -> list Z) (coeffs : list (list Z)) : outcome K.ecells :=
+  enc_add_comps_layers p nl alloc 0 [] coeffs.
+
+Definition pipe_tile_bytes_layers (p : pparams) (nl : Z) (cells : K.ecells) : outcome (list Z) :=
+  match K.enc_packets (pp_order p) nl (pp_levels p + 1) (pp_nc p) (pipe_pgeom p) cells with
+  | Ok r => Ok (K.packets_bytes (fst r))
+  | Err => Ok [0]
+  | Panic => Panic
+  | OutOfFuel => OutOfFuel
+  end.
+
+(* ===== pipe_encode_tile_layers: nl >= 2 layers ===== *)
+Definition pipe_encode_tile_layers (p : pparams) (nl : Z) (alloc : Z -> bkey -> list Z) (pix : list Z) : outcome (list Z) :=
+  obind (pipe_coeffs p pix) (fun coeffs =>
+  obind (pipe_cells_layers p nl alloc coeffs) (fun cells => pipe_tile_bytes_layers p nl cells)).
+
+(* the decoder only differs in the layer count handed to the packet decoder *)
+Definition pipe_dec_planes_layers (p : pparams) (nl : Z) (tile : list Z) : outcome (list (list Z)) :=
+  obind (K.dec_packets tile (pp_order p) nl (pp_levels p + 1) (pp_nc p) (pipe_pgeom_dec p) (dec_pidx p) (dec_geo p)
+                       0 false false) (fun dps =>
+    dec_components p dps (G.zrange (pp_nc p))).
+
+(* ===== pipe_decode_tile_layers ===== *)
+Definition pipe_decode_tile_layers (p : pparams) (nl : Z) (tile : list Z) : outcome (list Z) :=
+  obind (pipe_dec_planes_layers p nl tile) (fun planes => Ok (pipe_back p planes)).
+
+(* the whole codestream with nl layers in COD *)
+Definition pipe_codestream_layers (p : pparams) (nl : Z) (tile : list Z) : list Z :=
+  W.write_marker 65359
+  ++ W.j2k_siz_segment false (pp_w p) (pp_h p) 0 0 (pp_nc p) (pp_prec p) (pp_signed p)
+  ++ W.write_segment 65362 (W.j2k_cod_payload (pp_order p) nl (pp_mct p && (pp_nc p >=? 3)) (pp_levels p)
+                              (cb_log2 (pp_cbw p) - 2) (cb_log2 (pp_cbh p) - 2) false true)
+  ++ W.write_segment 65372 (qcd_payload p)
+  ++ W.write_segment 65380 version_com
+  ++ W.write_marker 65424 ++ W.be16_bytes 10 ++ W.be16_bytes 0 ++ W.be32_bytes (zlen tile + 14) ++ [0; 1]
+  ++ W.write_marker 65427 ++ tile
+  ++ W.write_marker 65497.
+
+(* ---- for the correspondence run only: the allocation a codestream carries, read off the packet
+        headers (cumulative number of passes of every block after every layer) ---- *)
+Definition find_packet (dps : list K.dpacket) (l r c : Z) : option K.dpacket :=
+  find (fun dp => let '(l', r', c', p') := K.dp_item dp in (l' =? l) && (r' =? r) && (c' =? c) && (p' =? 0)) dps.
+
+Fixpoint index_of (x : Z) (l : list Z) (k : Z) : Z :=
+  match l with [] => -1 | y :: r => if y =? x then k else index_of x r (k + 1) end.
+
+Definition block_layer_np (p : pparams) (dps : list K.dpacket) (c r g l : Z) : Z :=
+  match find_packet dps l r c, dec_order p r 0 with
+  | Some dp, Some ord =>
+    let j := index_of g ord 0 in
+    if j <? 0 then 0 else
+    match nth_error (K.dp_incls dp) (Z.to_nat j) with
+    | Some t => if H.di_included (fst (fst t)) then H.di_np (fst (fst t)) else 0
+    | None => 0
+    end
+  | _, _ => 0
+  end.
+
+Fixpoint cum_sums (acc : Z) (l : list Z) : list Z :=
+  match l with [] => [] | x :: r => (acc + x) :: cum_sums (acc + x) r end.
+
+Definition pipe_recover_alloc (p : pparams) (nl : Z) (tile : list Z) : outcome (list (list (list Z))) :=
+  obind (K.dec_packets tile (pp_order p) nl (pp_levels p + 1) (pp_nc p) (pipe_pgeom_dec p) (dec_pidx p) (dec_geo p)
+                       0 false false) (fun dps =>
+    Ok (map (fun c =>
+          map (fun e => cum_sums 0 (map (fun l => block_layer_np p dps c (ce_res e) (ce_global e) l) (G.zrange nl)))
+              (comp_entries p))
+        (G.zrange (pp_nc p)))).
+
+(* for the harness: rows listed per component in block order (LayerAllocation's index order) *)
+Definition alloc_of_rows (p : pparams) (rowss : list (list (list Z))) : Z -> bkey -> list Z :=
+  fun c k =>
+    if c <? 0 then [] else
+    match K.aget bkey_eqb (combine (map (fun e => (ce_res e, ce_band e, ce_cbx e, ce_cby e)) (comp_entries p))
+                                   (nth (Z.to_nat c) rowss [])) k with
+    | Some row => row
+    | None => []
+    end.
+
+(* ==================================================================================== *)
+(* TILES (TileWidth x TileHeight grid, one layer)                                         *)
+(* writeTiles: for every tile index, tileBounds, transformTile (copy the tile rectangle out of
+   every (level-shifted, RCT'd) component plane, forward DWT with the tile origin's parity),
+   buildTilePacketEncoderAt at the origin (the packet encoder itself gets the tile-LOCAL
+   bounds (0, 0, w, h)), one tile-part per tile.  Decoder: decodeAllTiles - NewTileDecoder
+   derives the tile rectangle from SIZ and Isot, decodes the tile at that origin, and
+   AssembleTile copies the tile's planes into the image planes (position in the codestream);
+   the inverse colour transform, level shift and packing run once on the assembled image.
+   The model decodes all tiles before assembling (Go interleaves; only the error point, not
+   the error, differs).                                                                    *)
+
+Definition tile_pp (p : pparams) (r : G.rect) : pparams :=
+  let '(x0, y0, x1, y1) := r in
+  mkPP (x1 - x0) (y1 - y0) (pp_nc p) (pp_prec p) (pp_signed p) (pp_levels p) (pp_cbw p) (pp_cbh p)
+       (pp_mct p) (pp_order p) x0 y0 (pp_w p).
+
+(* one tile: planes of the whole image -> packet bytes of the tile *)
+Definition pipe_tile_of_planes (p : pparams) (planes : list (list Z)) (r : G.rect) : outcome (list Z) :=
+  let pt := tile_pp p r in
+  obind (pipe_cells pt (map (fun pl => pipe_fdwt pt (G.extract_tile pl (pp_w p) r)) planes)) (fun cells =>
+    pipe_tile_bytes pt cells).
+
+(* ===== pipe_encode_tiles: pixel bytes -> the packet bytes of every tile (tw, th: TileWidth, TileHeight;
+   0 = the image dimension) ===== *)
+Definition pipe_encode_tiles (p : pparams) (tw th : Z) (pix : list Z) : outcome (list (list Z)) :=
+  obind (pipe_front p pix) (fun planes =>
+    omap (pipe_tile_of_planes p planes)
+         (G.enc_tiles (pp_w p) (pp_h p) (G.enc_tile_size (pp_w p) tw) (G.enc_tile_size (pp_h p) th))).
+
+(* ===== pipe_decode_tiles: the tiles' packet bytes (codestream order, Isot = position) -> pixel bytes ===== *)
+Definition pipe_decode_tiles (p : pparams) (tw th : Z) (tiles : list (list Z)) : outcome (list Z) :=
+  let etw := G.enc_tile_size (pp_w p) tw in
+  let eth := G.enc_tile_size (pp_h p) th in
+  obind (omap (fun i => pipe_dec_planes (tile_pp p (G.dec_tile_bounds i (pp_w p) (pp_h p) 0 0 etw eth 0 0))
+                                        (nth (Z.to_nat i) tiles []))
+              (G.zrange (zlen tiles))) (fun tplanes =>
+  let tl := G.new_tile_layout (pp_w p) (pp_h p) 0 0 etw eth 0 0 in
+  obind (omap (fun c => G.assemble_tiles tl (G.zeros (Z.to_nat (G.tl_imageWidth tl * G.tl_imageHeight tl))) 0
+                          (map (fun pls => nth (Z.to_nat c) pls []) tplanes))
+              (G.zrange (pp_nc p))) (fun planes =>
+  Ok (pipe_back p planes))).
+
+(* the whole codestream: main header with XTsiz/YTsiz, one tile-part per tile (Isot = index) *)
+Fixpoint tile_parts (idx : Z) (tiles : list (list Z)) : list Z :=
+  match tiles with
+  | [] => []
+  | t :: r => W.write_marker 65424 ++ W.be16_bytes 10 ++ W.be16_bytes idx ++ W.be32_bytes (zlen t + 14) ++ [0; 1]
+              ++ W.write_marker 65427 ++ t ++ tile_parts (idx + 1) r
+  end.
+
+Definition pipe_codestream_tiles (p : pparams) (tw th : Z) (tiles : list (list Z)) : list Z :=
+  W.write_marker 65359
+  ++ W.j2k_siz_segment false (pp_w p) (pp_h p) tw th (pp_nc p) (pp_prec p) (pp_signed p)
+  ++ W.write_segment 65362 (W.j2k_cod_payload (pp_order p) 1 (pp_mct p && (pp_nc p >=? 3)) (pp_levels p)
+                              (cb_log2 (pp_cbw p) - 2) (cb_log2 (pp_cbh p) - 2) false true)
+  ++ W.write_segment 65372 (qcd_payload p)
+  ++ W.write_segment 65380 version_com
+  ++ tile_parts 0 tiles
+  ++ W.write_marker 65497.
+
+(* ==================================================================================== *)
+(* TILES x QUALITY LAYERS                                                                 *)
+(* writeTilesWithGlobalRateDistortion (more than one tile and NumLayers > 1): every tile is
+   transformed and its blocks coded, ONE rate-distortion allocation runs over the blocks of all
+   tiles, then every tile's packets are written.  The allocation is a parameter again, per tile
+   index: talloc idx comp key = the row of cumulative pass counts.  (With one tile writeTile ->
+   encodeTilePackets runs the same allocation code on that tile alone.) *)
+
+Definition tile_rect (p : pparams) (tw th idx : Z) : G.rect :=
+  let etw := G.enc_tile_size (pp_w p) tw in
+  let eth := G.enc_tile_size (pp_h p) th in
+  G.enc_tile_bounds (pp_w p) (pp_h p) idx etw eth (G.enc_num_tiles (pp_w p) etw).
+
+Definition tile_count (p : pparams) (tw th : Z) : Z :=
+  G.enc_num_tiles (pp_w p) (G.enc_tile_size (pp_w p) tw) * G.enc_num_tiles (pp_h p) (G.enc_tile_size (pp_h p) th).
+
+Definition pipe_tile_of_planes_layers (p : pparams) (nl : Z) (alloc : Z -> bkey -> list Z)
+  (planes : list (list Z)) (r : G.rect) : outcome (list Z) :=
+  let pt := tile_pp p r in
+  obind (pipe_cells_layers pt nl alloc (map (fun pl => pipe_fdwt pt (G.extract_tile pl (pp_w p) r)) planes)) (fun cells =>
+    pipe_tile_bytes_layers pt nl cells).
+
+(* ===== pipe_encode_tiles_layers ===== *)
+Definition pipe_encode_tiles_layers (p : pparams) (nl : Z) (talloc : Z -> Z -> bkey -> list Z) (tw th : Z)
+  (pix : list Z) : outcome (list (list Z)) :=
+  obind (pipe_front p pix) (fun planes =>
+    omap (fun idx => pipe_tile_of_planes_layers p nl (talloc idx) planes (tile_rect p tw th idx))
+         (G.zrange (tile_count p tw th))).
+
+(* ===== pipe_decode_tiles_layers ===== *)
+Definition pipe_decode_tiles_layers (p : pparams) (nl : Z) (tw th : Z) (tiles : list (list Z)) : outcome (list Z) :=
+  let etw := G.enc_tile_size (pp_w p) tw in
+  let eth := G.enc_tile_size (pp_h p) th in
+  obind (omap (fun i => pipe_dec_planes_layers (tile_pp p (G.dec_tile_bounds i (pp_w p) (pp_h p) 0 0 etw eth 0 0)) nl
+                                               (nth (Z.to_nat i) tiles []))
+              (G.zrange (zlen tiles))) (fun tplanes =>
+  let tl := G.new_tile_layout (pp_w p) (pp_h p) 0 0 etw eth 0 0 in
+  obind (omap (fun c => G.assemble_tiles tl (G.zeros (Z.to_nat (G.tl_imageWidth tl * G.tl_imageHeight tl))) 0
+                          (map (fun pls => nth (Z.to_nat c) pls []) tplanes))
+              (G.zrange (pp_nc p))) (fun planes =>
+  Ok (pipe_back p planes))).
+
+Definition pipe_codestream_tiles_layers (p : pparams) (nl : Z) (tw th : Z) (tiles : list (list Z)) : list Z :=
+  W.write_marker 65359
+  ++ W.j2k_siz_segment false (pp_w p) (pp_h p) tw th (pp_nc p) (pp_prec p) (pp_signed p)
+  ++ W.write_segment 65362 (W.j2k_cod_payload (pp_order p) nl (pp_mct p && (pp_nc p >=? 3)) (pp_levels p)
+                              (cb_log2 (pp_cbw p) - 2) (cb_log2 (pp_cbh p) - 2) false true)
+  ++ W.write_segment 65372 (qcd_payload p)
+  ++ W.write_segment 65380 version_com
+  ++ tile_parts 0 tiles
+  ++ W.write_marker 65497.
